@@ -146,10 +146,11 @@ Section ErrRun.
   Context {R : Type}.
   Variable msplit : R -> option R -> option (list R).
   Variable sizeof : R -> Z.
+  Variable icount : R -> Z.
   Variable min_size : Z.
   Notation bst := (@bstate R).
 
-  Lemma erun_fst es : fst (erun msplit sizeof min_size es) = brun msplit sizeof min_size es.
+  Lemma erun_fst es : fst (erun msplit sizeof icount min_size es) = brun msplit sizeof icount min_size es.
   Proof.
     unfold erun, brun. generalize (@b_init R, O) as sn. generalize (fun _ : nat => false) as E.
     induction es as [|e es IH]; intros E sn; [reflexivity|]. cbn [fold_left]. destruct sn as [st n].
@@ -165,36 +166,42 @@ Section ErrRun.
        let '(st1, d) := wrap_done st n N in
        b_refs st' = b_refs st1 -> b_fired st' = b_fired st1 ->
        (forall x, tokens st' x = tokens st x + Z.of_nat N * occ x [d]) -> Phi st') ->
-    Phi (consume msplit sizeof min_size st n r).
+    Phi (consume msplit sizeof icount min_size st n r).
   Proof.
     intros Hfail Hsucc. unfold consume. destruct (b_cur st) as [[cur cds]|] eqn:Ecur.
     - destruct (msplit cur (Some r)) as [[|r0 rest]|] eqn:Em;
         try (apply Hfail; unfold ms_failed; rewrite Ecur, Em; reflexivity).
       assert (Hms : ms_failed msplit st r = false) by (unfold ms_failed; rewrite Ecur, Em; reflexivity).
       specialize (Hsucc Hms).
-      destruct (wrap_done st n (S (length rest))) as [st1 d] eqn:Ew.
+      set (fhn := (Nat.eqb (length rest) 0 || negb (icount r0 =? icount cur))%bool).
+      set (N := if fhn then S (length rest) else length rest).
+      destruct (wrap_done st n N) as [st1 d] eqn:Ew.
       destruct (wrap_done_facts _ _ _ _ _ Ew) as [Hc1 [Hf1 Ht1]].
+      set (cds' := if fhn then cds ++ [d] else cds).
       set (ff := ((0 <? length rest)%nat || negb (sizeof r0 <? min_size))%bool).
-      set (st2 := with_cur st1 (if ff then None else Some (r0, cds ++ [d]))).
+      set (st2 := with_cur st1 (if ff then None else Some (r0, cds'))).
       destruct (park_last sizeof min_size st2 rest d) as [rest' st3] eqn:Ep.
       assert (Hpre : rest <> [] -> b_cur st2 = None).
       { intros Hne. unfold st2, ff. destruct rest; [congruence|]. reflexivity. }
       destruct (park_last_spec sizeof min_size st2 rest d rest' st3 Hpre Ep) as [Hr3 [Hf3 Ht3]].
-      set (st4 := if ff then start_flush st3 r0 (cds ++ [d]) else st3).
+      set (st4 := if ff then start_flush st3 r0 cds' else st3).
       destruct (start_flushes_spec rest' st4 [d]) as [Hr5 [Hf5 [_ Ht5]]].
-      assert (HN : (1 <= S (length rest))%nat) by lia.
-      specialize (Hsucc (S (length rest)) (start_flushes st4 rest' [d]) HN). rewrite Ew in Hsucc.
+      assert (HN : (1 <= N)%nat).
+      { unfold N, fhn. destruct (Nat.eqb (length rest) 0) eqn:E0; cbn [orb]; [lia|]. apply Nat.eqb_neq in E0. destruct (negb (icount r0 =? icount cur)); lia. }
+      assert (Hocc : forall x, occ x cds' + Z.of_nat (length rest) * occ x [d] = occ x cds + Z.of_nat N * occ x [d]).
+      { intros x. unfold cds', N. destruct fhn; [rewrite occ_app|]; lia. }
+      specialize (Hsucc N (start_flushes st4 rest' [d]) HN). rewrite Ew in Hsucc.
       apply Hsucc.
       + rewrite Hr5. unfold st4. destruct ff; [rewrite (proj1 (start_flush_rf _ _ _))|]; rewrite Hr3; reflexivity.
       + rewrite Hf5. unfold st4. destruct ff; [rewrite (proj1 (proj2 (start_flush_rf _ _ _)))|]; rewrite Hf3; reflexivity.
-      + intros x. rewrite Ht5. specialize (Ht3 x). rewrite <- Ht1.
+      + intros x. rewrite Ht5. specialize (Ht3 x). rewrite <- Ht1. specialize (Hocc x).
         assert (Hst1 : tokens st1 x = occ x cds + fly_tokens x (b_flying st1)).
         { unfold tokens, cur_dones. rewrite Hc1, Ecur. reflexivity. }
         unfold st4. destruct ff eqn:Eff.
-        * rewrite tok_start_flush, occ_app. unfold st2 in Ht3. rewrite tok_with_cur_none in Ht3. rewrite Hst1. lia.
+        * rewrite tok_start_flush. unfold st2 in Ht3. rewrite tok_with_cur_none in Ht3. rewrite Hst1. lia.
         * unfold ff in Eff. apply orb_false_iff in Eff. destruct Eff as [El _]. apply Nat.ltb_ge in El.
           destruct rest; [|cbn in El; lia]. cbn [length] in *.
-          unfold st2 in Ht3. rewrite tok_with_cur_some, occ_app in Ht3.
+          unfold st2 in Ht3. rewrite tok_with_cur_some in Ht3.
           unfold park_last in Ep. cbn [unsnoc] in Ep. injection Ep as Hr' Hs3. subst rest'. cbn [length] in *. rewrite Hst1. lia.
     - destruct (msplit r None) as [[|r0 rest]|] eqn:Em;
         try (apply Hfail; unfold ms_failed; rewrite Ecur, Em; reflexivity).
@@ -215,7 +222,7 @@ Section ErrRun.
   Qed.
 
   Lemma invJ_consume n (st : bst) r E : InvJ n st E ->
-    InvJ (S n) (consume msplit sizeof min_size st n r) (fun i => E i || (Nat.eqb i n && ms_failed msplit st r)).
+    InvJ (S n) (consume msplit sizeof icount min_size st n r) (fun i => E i || (Nat.eqb i n && ms_failed msplit st r)).
   Proof.
     intros [HI HJ]. split; [apply inv_consume; exact HI|].
     destruct HI as [G1 [G2 [G3 G4]]]. destruct HJ as [J1 [J2 [J3 J4]]].
@@ -287,11 +294,11 @@ Section ErrRun.
   Lemma invJ_init : InvJ 0 (@b_init R) (fun _ => false).
   Proof. split; [apply inv_init|]. repeat split; intros; try reflexivity. - destruct H. - destruct k; discriminate. Qed.
 
-  Lemma invJ_run es : let '(st, n, E) := erun msplit sizeof min_size es in InvJ n st E.
+  Lemma invJ_run es : let '(st, n, E) := erun msplit sizeof icount min_size es in InvJ n st E.
   Proof.
     unfold erun. rewrite <- fold_left_rev_right.
     induction (rev es) as [|e l IH]; cbn [fold_right]; [exact invJ_init|].
-    destruct (fold_right (fun y x => estep msplit sizeof min_size x y) (b_init, O, fun _ : nat => false) l) as [[st n] E].
+    destruct (fold_right (fun y x => estep msplit sizeof icount min_size x y) (b_init, O, fun _ : nat => false) l) as [[st n] E].
     destruct e; cbn [estep bstep].
     - apply invJ_consume; exact IH.
     - apply invJ_flush_current; exact IH.
@@ -301,9 +308,9 @@ Section ErrRun.
 
   (* the theorem: whatever the callback reported is the specification's verdict *)
   Lemma done_error_iff_l es i e :
-    In (i, e) (b_fired (fst (brun msplit sizeof min_size es))) -> e = snd (erun msplit sizeof min_size es) i.
+    In (i, e) (b_fired (fst (brun msplit sizeof icount min_size es))) -> e = snd (erun msplit sizeof icount min_size es) i.
   Proof.
-    rewrite <- erun_fst. pose proof (invJ_run es) as H. destruct (erun msplit sizeof min_size es) as [[st n] E]. cbn [fst snd].
+    rewrite <- erun_fst. pose proof (invJ_run es) as H. destruct (erun msplit sizeof icount min_size es) as [[st n] E]. cbn [fst snd].
     destruct H as [_ [J1 _]]. apply J1.
   Qed.
 End ErrRun.
